@@ -97,7 +97,18 @@ def main():
     metas = [m for m in sorted(glob.glob(os.path.join(VERIF, "seeded", "*", "meta.json"))) if prop in json.load(open(m)).get("properties", [])]
     with concurrent.futures.ThreadPoolExecutor(max_workers=8) as ex:
         seeded = list(ex.map(lambda m: run_seeded(m, prop), metas))
-    eq_dirs = [os.path.dirname(m) for m in sorted(glob.glob(os.path.join(VERIF, "equivalents", "*", "patch.diff")))]
+    # the refactorings written for this property's code, and every one that ever made this property's check alarm
+    eq_dirs = []
+    for m in sorted(glob.glob(os.path.join(VERIF, "equivalents", "*", "patch.diff"))):
+        d = os.path.dirname(m)
+        try:
+            meta = json.load(open(os.path.join(d, "meta.json")))
+        except Exception:
+            meta = {}
+        fa = meta.get("first_alarms") or ""
+        if isinstance(fa, dict): fa = " ".join(fa.keys())
+        if prop in os.path.basename(d) or prop in fa:
+            eq_dirs.append(d)
     with concurrent.futures.ThreadPoolExecutor(max_workers=8) as ex:
         equivs = list(ex.map(lambda d: run_equiv(d, prop), eq_dirs))
     e_silent = [r["name"] for r in equivs if r["status"] == "silent"]
